@@ -21,8 +21,10 @@ import (
 	"fmt"
 	"go/ast"
 	"go/format"
+	"go/importer"
 	"go/parser"
 	"go/token"
+	"go/types"
 	"os"
 	"path/filepath"
 	"strconv"
@@ -32,12 +34,13 @@ import (
 const modPrefix = "github.com/TheManticoreProject/Manticore/zz_verif/"
 
 var redirect = map[string]string{
-	"sync":        "vsync",
-	"net":         "vnet",
-	"time":        "vtime",
-	"math/rand":   "vrand",
-	"sync/atomic": "vatomic",
-	"context":     "vcontext",
+	"sync":         "vsync",
+	"net":          "vnet",
+	"time":         "vtime",
+	"math/rand":    "vrand",
+	"sync/atomic":  "vatomic",
+	"context":      "vcontext",
+	"hash/maphash": "vmaphash",
 }
 
 func fatalf(f string, a ...any) {
@@ -73,6 +76,7 @@ func main() {
 		if err != nil {
 			fatalf("%v", err)
 		}
+		pfset, pfiles, pinfo := typeCheck(dir, ents)
 		for _, e := range ents {
 			n := e.Name()
 			if e.IsDir() || !strings.HasSuffix(n, ".go") || strings.HasSuffix(n, "_test.go") {
@@ -83,6 +87,9 @@ func main() {
 				usesTryLock = true
 			}
 			in := &inst{fset: token.NewFileSet(), file: src}
+			if pf := pfiles[src]; pf != nil {
+				in.fset, in.parsed, in.info = pfset, pf, pinfo
+			}
 			b, err := in.rewrite()
 			if err != nil {
 				fatalf("%s: %v", src, err)
@@ -98,7 +105,7 @@ func main() {
 			nchan += in.nchan
 		}
 	}
-	for _, sp := range []string{"vrt", "vsync", "vnet", "vtime", "vrand", "vatomic", "vcontext"} {
+	for _, sp := range []string{"vrt", "vsync", "vnet", "vtime", "vrand", "vatomic", "vcontext", "vmaphash"} {
 		ents, err := os.ReadDir(filepath.Join(*shim, sp))
 		if err != nil {
 			fatalf("%v", err)
@@ -133,9 +140,49 @@ func main() {
 	fmt.Printf("instrumented files=%d go-statements=%d selects=%d channel-ops=%d\n", nfiles, ngo, nsel, nchan)
 }
 
+// typeCheck parses the non-test files of one package and computes the types of its expressions (imports are
+// type-checked from source, which works offline). The instrumenter needs types for exactly two things: telling
+// a range over a CHANNEL (a blocking receive per iteration) and a range over a MAP (iteration order chosen by
+// the runtime) from other range statements. If anything fails the package is instrumented without types.
+var srcImporter types.Importer
+
+func typeCheck(dir string, ents []os.DirEntry) (*token.FileSet, map[string]*ast.File, *types.Info) {
+	fset := token.NewFileSet()
+	files := map[string]*ast.File{}
+	var list []*ast.File
+	for _, e := range ents {
+		n := e.Name()
+		if e.IsDir() || !strings.HasSuffix(n, ".go") || strings.HasSuffix(n, "_test.go") {
+			continue
+		}
+		f, err := parser.ParseFile(fset, filepath.Join(dir, n), nil, parser.SkipObjectResolution)
+		if err != nil {
+			return nil, map[string]*ast.File{}, nil
+		}
+		files[filepath.Join(dir, n)] = f
+		list = append(list, f)
+	}
+	if srcImporter == nil {
+		srcImporter = importer.ForCompiler(fset, "source", nil)
+	}
+	info := &types.Info{Types: map[ast.Expr]types.TypeAndValue{}}
+	conf := types.Config{Importer: srcImporter, Error: func(error) {}}
+	func() {
+		defer func() {
+			if recover() != nil {
+				info = nil
+			}
+		}()
+		conf.Check(dir, fset, list, info)
+	}()
+	return fset, files, info
+}
+
 type inst struct {
 	fset    *token.FileSet
 	file    string
+	parsed  *ast.File   // already parsed (and type-checked) syntax tree of file, or nil
+	info    *types.Info // type information of the package, or nil when it could not be computed
 	usesVrt bool
 	tmp     int
 	ngo     int
@@ -165,9 +212,13 @@ func (in *inst) vrtStmt(fn string, args ...ast.Expr) ast.Stmt {
 func strLit(s string) ast.Expr { return &ast.BasicLit{Kind: token.STRING, Value: strconv.Quote(s)} }
 
 func (in *inst) rewrite() ([]byte, error) {
-	f, err := parser.ParseFile(in.fset, in.file, nil, parser.SkipObjectResolution)
-	if err != nil {
-		return nil, err
+	f := in.parsed
+	if f == nil {
+		var err error
+		f, err = parser.ParseFile(in.fset, in.file, nil, parser.SkipObjectResolution)
+		if err != nil {
+			return nil, err
+		}
 	}
 	for _, im := range f.Imports {
 		p, _ := strconv.Unquote(im.Path.Value)
@@ -338,8 +389,12 @@ func (in *inst) stmt(s ast.Stmt) []ast.Stmt {
 		in.block(s.Body)
 		return []ast.Stmt{s}
 	case *ast.RangeStmt:
+		kind := in.rangeKind(s.X)
 		s.X = in.expr(s.X)
 		in.block(s.Body)
+		if r := in.rangeRewrite(s, kind); r != nil {
+			return []ast.Stmt{r}
+		}
 		return []ast.Stmt{s}
 	case *ast.SwitchStmt:
 		s.Init = in.simple(s.Init)
@@ -372,6 +427,112 @@ func (in *inst) stmt(s ast.Stmt) []ast.Stmt {
 		in.fail(s, "unhandled statement %T", s)
 		return []ast.Stmt{s}
 	}
+}
+
+// rangeKind: 'c' range over a channel, 'm' range over a map whose keys have a total order, 0 anything else/unknown.
+func (in *inst) rangeKind(x ast.Expr) byte {
+	if in.info == nil {
+		return 0
+	}
+	tv, ok := in.info.Types[x]
+	if !ok || tv.Type == nil {
+		return 0
+	}
+	switch t := tv.Type.Underlying().(type) {
+	case *types.Chan:
+		return 'c'
+	case *types.Map:
+		if b, ok := t.Key().Underlying().(*types.Basic); ok && b.Info()&(types.IsInteger|types.IsString|types.IsFloat) != 0 {
+			return 'm'
+		}
+	}
+	return 0
+}
+
+func pureOperand(e ast.Expr) bool {
+	switch e := e.(type) {
+	case *ast.Ident:
+		return true
+	case *ast.SelectorExpr:
+		return pureOperand(e.X)
+	case *ast.ParenExpr:
+		return pureOperand(e.X)
+	}
+	return false
+}
+
+// rangeRewrite makes the two kinds of range statement whose behaviour the Go runtime decides visible to the
+// scheduler: a range over a channel becomes a loop of instrumented receives; a range over a map with ordered
+// keys visits the keys in sorted order (entries deleted meanwhile are skipped) — one of the orders Go allows.
+func (in *inst) rangeRewrite(s *ast.RangeStmt, kind byte) ast.Stmt {
+	use := func(id *ast.Ident) ast.Expr { return ast.NewIdent(id.Name) }
+	blank := func(e ast.Expr) bool {
+		if e == nil {
+			return true
+		}
+		id, ok := e.(*ast.Ident)
+		return ok && id.Name == "_"
+	}
+	switch kind {
+	case 'c':
+		if s.Value != nil {
+			return nil
+		}
+		in.nchan++
+		chv, okv, valv := in.name("c"), in.name("k"), in.name("r")
+		recv := &ast.AssignStmt{Lhs: []ast.Expr{valv, okv}, Tok: token.DEFINE, Rhs: []ast.Expr{in.vrtCall("Recv2", use(chv))}}
+		body := []ast.Stmt{recv,
+			&ast.IfStmt{Cond: &ast.UnaryExpr{Op: token.NOT, X: use(okv)}, Body: &ast.BlockStmt{List: []ast.Stmt{&ast.BranchStmt{Tok: token.BREAK}}}}}
+		if blank(s.Key) {
+			body = append(body, &ast.AssignStmt{Lhs: []ast.Expr{ast.NewIdent("_")}, Tok: token.ASSIGN, Rhs: []ast.Expr{use(valv)}})
+		} else {
+			tok := s.Tok
+			if tok != token.DEFINE {
+				tok = token.ASSIGN
+			}
+			body = append(body, &ast.AssignStmt{Lhs: []ast.Expr{s.Key}, Tok: tok, Rhs: []ast.Expr{use(valv)}})
+			if tok == token.DEFINE {
+				if id, ok := s.Key.(*ast.Ident); ok {
+					body = append(body, &ast.AssignStmt{Lhs: []ast.Expr{ast.NewIdent("_")}, Tok: token.ASSIGN, Rhs: []ast.Expr{ast.NewIdent(id.Name)}})
+				}
+			}
+		}
+		// the original body runs in its own block so that its declarations cannot clash with the loop's temporaries
+		body = append(body, s.Body)
+		return &ast.ForStmt{
+			Init: &ast.AssignStmt{Lhs: []ast.Expr{chv}, Tok: token.DEFINE, Rhs: []ast.Expr{s.X}},
+			Body: &ast.BlockStmt{List: body},
+		}
+	case 'm':
+		if s.Tok != token.DEFINE && !(blank(s.Key) && blank(s.Value)) || !pureOperand(s.X) {
+			return nil
+		}
+		kv := in.name("mk")
+		var pre []ast.Stmt
+		if !blank(s.Value) {
+			okv := in.name("k")
+			pre = append(pre,
+				&ast.AssignStmt{Lhs: []ast.Expr{s.Value, okv}, Tok: token.DEFINE, Rhs: []ast.Expr{&ast.IndexExpr{X: s.X, Index: use(kv)}}},
+				&ast.IfStmt{Cond: &ast.UnaryExpr{Op: token.NOT, X: use(okv)}, Body: &ast.BlockStmt{List: []ast.Stmt{&ast.BranchStmt{Tok: token.CONTINUE}}}})
+			if id, ok := s.Value.(*ast.Ident); ok {
+				pre = append(pre, &ast.AssignStmt{Lhs: []ast.Expr{ast.NewIdent("_")}, Tok: token.ASSIGN, Rhs: []ast.Expr{ast.NewIdent(id.Name)}})
+			}
+		} else {
+			okv := in.name("k")
+			pre = append(pre,
+				&ast.AssignStmt{Lhs: []ast.Expr{ast.NewIdent("_"), okv}, Tok: token.DEFINE, Rhs: []ast.Expr{&ast.IndexExpr{X: s.X, Index: use(kv)}}},
+				&ast.IfStmt{Cond: &ast.UnaryExpr{Op: token.NOT, X: use(okv)}, Body: &ast.BlockStmt{List: []ast.Stmt{&ast.BranchStmt{Tok: token.CONTINUE}}}})
+		}
+		if !blank(s.Key) {
+			pre = append(pre, &ast.AssignStmt{Lhs: []ast.Expr{s.Key}, Tok: token.DEFINE, Rhs: []ast.Expr{use(kv)}})
+			if id, ok := s.Key.(*ast.Ident); ok {
+				pre = append(pre, &ast.AssignStmt{Lhs: []ast.Expr{ast.NewIdent("_")}, Tok: token.ASSIGN, Rhs: []ast.Expr{ast.NewIdent(id.Name)}})
+			}
+		}
+		return &ast.RangeStmt{Key: ast.NewIdent("_"), Value: kv, Tok: token.DEFINE, X: in.vrtCall("SortedKeys", s.X),
+			Body: &ast.BlockStmt{List: append(pre, s.Body)}}
+	}
+	return nil
 }
 
 func (in *inst) simple(s ast.Stmt) ast.Stmt {
